@@ -762,7 +762,16 @@ def _skip_event(*events, **kwargs):
     if changed is None:
         return False
     for e in events:
-        for p in changed:
+        if isinstance(changed, dict):
+            # Per watched parameter: the parameters to compare below the
+            # sub-object it holds.  An event for a parameter that holds no
+            # sub-object on a dependency path is a change of a dependency.
+            if e.name not in changed:
+                return False
+            subparams = changed[e.name]
+        else:
+            subparams = changed
+        for p in subparams:
             if what == 'value':
                 old = Undefined if e.old is None else _getattrr(e.old, p, None)
                 new = Undefined if e.new is None else _getattrr(e.new, p, None)
@@ -2411,7 +2420,11 @@ class Parameters:
                 sps, cb, what = self_._resolve_dynamic_deps(obj, ddep, pdep, root)
                 callback = callback or cb
                 if sps is not None:
-                    subparams = (subparams or []) + [sp for sp in sps if sp not in (subparams or [])]
+                    # (kept per parameter: 'l.x' and 'm.y' do not make a
+                    # replaced l be compared on y)
+                    subparams = subparams or {}
+                    seen = subparams.setdefault(pdep.name, [])
+                    seen.extend(sp for sp in sps if sp not in seen)
 
         mcaller = _m_caller(obj, name, what, subparams, callback)
         return dep_obj.param._watch(
